@@ -113,9 +113,12 @@ def rule_unpack(rep: Report, repo: Repo) -> None:
                 want = {byte: f'{src}[0] >> 1', cnt: '7'}
                 if src and src.startswith('self.'):
                     want[src] = f'{src}[1:]'           # a buffered source is advanced by exactly the byte just taken
-                s_refill = src is not None and o.state == want and not o.effects
+                # an unbuffered source is ONE read whose result is bound once (`_v1 := stdin.read(1)...`); nothing else happens
+                src_read = [e for e in o.effects if src and e.startswith(f'{src} := ')]
+                s_refill = src is not None and o.state == want and o.effects == src_read and len(src_read) == (0 if src.startswith('self.') else 1)
             others = [o for o in outs if o is not st and o not in refills]
-            s_rest = all(o.result[0] == 'raise' and not o.state and not o.effects and f'0 == {cnt}' in o.conds for o in others)
+            s_rest = all(o.result[0] == 'raise' and not o.state and all(' := ' in e for e in o.effects) and len(o.effects) <= 1
+                         and f'0 == {cnt}' in o.conds for o in others)
             ok = s_steady and s_refill and s_rest
             why = f'count={cnt} byte={byte} source={src}: steady={s_steady} refill={s_refill} only-other-paths-raise-without-effects={s_rest}'
         rep.check(ok, 'C17.UNPACK', f'{cls}.read_bit', why, site)
